@@ -5,14 +5,28 @@
 // `omp for nowait` loops of the nine library regions take their schedule from omp_set_schedule().
 //
 // input (stdin), one command per line:
-//   COMBOS t:k:c t:k:c ...          k: 1 static, 2 dynamic, 3 guided ; c: chunk (0 = default)
+//   COMBOS t:k:c[:m] ...            k: 1 static, 2 dynamic, 3 guided ; c: chunk (0 = default); t = 0: the thread count
+//                                   of the environment (OMP_NUM_THREADS) instead of omp_set_num_threads(t)
+//        m (execution context, wave 3; default 0):
+//          0 plain top-level call
+//          1 the routine is called from INSIDE a `#pragma omp parallel num_threads(3)` region of this harness, every outer
+//            thread on its own data set; nested parallelism off (max-active-levels 1: the inner team has ONE thread while
+//            omp_get_max_threads() still answers t)
+//          2 the same with nested parallelism on (max-active-levels 2)
+//          3 plain call with omp_set_dynamic(1): the runtime may give the region a team smaller than t (it always does
+//            when t exceeds the number of processors)
+//        whatever the context, the result on each data set must be the one of the plain single-threaded call.
+//        (OMP_THREAD_LIMIT below the thread count is the remaining context: it is set in the environment by the check)
 //   CASE <id> <region> <N> <k> <d> <L> <dim> <seed> <intdata>
 //        region: iso isol mds mdsl diff klle kltsa hlle tri cli tsne
 //        (tsne: no OpenMP region on the pinned tree — a sentinel: tsne::TSNE::run on N points of dimension dim,
 //         perplexity k, theta = 0.5 if d == 2 else 0 (exact), stopped by the harness' logger at the first progress
 //         line with iteration >= L; result = the map Y after those iterations + the logged error)
 // output: "C <id>" before each case (flushed), then per combination
-//   "R <id> <t> <k> <c> <hash> <entries> <maxabsdiff %a> <maxabsref %a> <nonfinite> <hash of the iteration->thread map>"
+//   "R <id> <t> <k> <c> <hash> <entries> <maxabsdiff %a> <maxabsref %a> <nonfinite> <hash of the iteration->thread map> <m> <team>"
+//   (m = 1, 2: three data sets; <hash> is the hash of the first data set's result when all three results are bit-identical
+//    to their single-threaded references, otherwise a hash of the three results together; <maxabsdiff> the largest deviation
+//    over the three; <team> = largest team size the OpenMP runtime reported for a probe region in that context)
 //   and up to three lines "X <id> <t> <k> <c> <index> <ref %a> <val %a>" for differing entries,
 //   "V <id> <n> <n hex doubles>" once per case for small mds / mdsl / cli results (row major),
 //   then "E <id>".
@@ -81,7 +95,7 @@ struct dist_cb
 
 struct Combo
 {
-    int t, k, c;
+    int t, k, c, m;
 };
 
 static uint64_t lcg(uint64_t& s)
@@ -139,18 +153,19 @@ struct stop_request
 {
     long iteration;
 };
+// per calling thread: in the nested contexts three threads of the harness call tapkee concurrently
+static thread_local long tl_stop_at = -1;
+static thread_local double tl_last_error = 0;
 struct StopLogger : public LoggerImplementation
 {
-    long stop_at = -1;
-    double last_error = 0;
     virtual void message_info(const std::string& msg)
     {
         long it = 0;
         double v = 0;
         if (parse_progress(msg, it, v))
         {
-            last_error = v;
-            if (stop_at >= 0 && it >= stop_at) throw stop_request{it};
+            tl_last_error = v;
+            if (tl_stop_at >= 0 && it >= tl_stop_at) throw stop_request{it};
         }
     }
     virtual void message_warning(const std::string&) {}
@@ -250,8 +265,8 @@ static std::vector<double> run_region(const std::string& region, const Data& D, 
         for (int i = 0; i < D.N; i++)
             for (int c = 0; c < D.dim; c++) X(c, i) = D.at(i, c);
         std::vector<double> Y((size_t)D.N * 2 + 1, 0.0);
-        g_logger->stop_at = L;
-        g_logger->last_error = 0;
+        tl_stop_at = L;
+        tl_last_error = 0;
         srand((unsigned)seed);
         tsne::TSNE t;
         try
@@ -261,8 +276,8 @@ static std::vector<double> run_region(const std::string& region, const Data& D, 
         catch (const stop_request&)
         {
         }
-        g_logger->stop_at = -1;
-        Y[(size_t)D.N * 2] = g_logger->last_error;
+        tl_stop_at = -1;
+        Y[(size_t)D.N * 2] = tl_last_error;
         return Y;
     }
     if (region == "cli")
@@ -278,11 +293,71 @@ static std::vector<double> run_region(const std::string& region, const Data& D, 
     return std::vector<double>();
 }
 
+static void make_data(Data& D, int N, int dim, unsigned long long seed, int intdata)
+{
+    D.N = N;
+    D.dim = dim;
+    D.x.resize((size_t)N * dim);
+    uint64_t s = seed * 2654435761ULL + 12345;
+    for (auto& v : D.x) v = intdata ? (double)((int)(lcg(s) % 41) - 20) : ((double)(lcg(s) % 2000001) - 1e6) / 7e4;
+}
+
+struct Cmp
+{
+    double maxd = 0, maxr = 0;
+    long nonfinite = 0;
+    bool identical = true;
+    std::vector<std::pair<size_t, std::pair<double, double>>> bad;
+};
+
+static void compare(const std::vector<double>& r, const std::vector<double>& ref, size_t offset, Cmp& out)
+{
+    if (r.size() != ref.size())
+    {
+        out.maxd = std::numeric_limits<double>::infinity();
+        out.identical = false;
+        return;
+    }
+    if (r.size() && memcmp(r.data(), ref.data(), r.size() * sizeof(double)) != 0) out.identical = false;
+    for (size_t i = 0; i < r.size(); i++)
+    {
+        if (!std::isfinite(r[i]) || !std::isfinite(ref[i]))
+        {
+            out.nonfinite++;
+            if (memcmp(&r[i], &ref[i], sizeof(double)) != 0 && !(std::isnan(r[i]) && std::isnan(ref[i])))
+            {
+                out.maxd = std::numeric_limits<double>::infinity();
+                if (out.bad.size() < 3) out.bad.push_back({offset + i, {ref[i], r[i]}});
+            }
+            continue;
+        }
+        double df = std::fabs(r[i] - ref[i]);
+        if (df > out.maxd) out.maxd = df;
+        if (std::fabs(ref[i]) > out.maxr) out.maxr = std::fabs(ref[i]);
+        if (df != 0 && out.bad.size() < 3) out.bad.push_back({offset + i, {ref[i], r[i]}});
+    }
+}
+
+// the routine, called by one thread; an exception must not leave an OpenMP region of the harness
+static std::vector<double> run_guarded(const std::string& region, const Data& D, int k, int d, int L, uint64_t seed, int& threw)
+{
+    try
+    {
+        return run_region(region, D, k, d, L, seed);
+    }
+    catch (...)
+    {
+        threw = 1;
+        return std::vector<double>();
+    }
+}
+
 int main()
 {
     std::vector<Combo> combos;
-    combos.push_back({1, 1, 0});
+    combos.push_back({1, 1, 0, 0});
     std::string line;
+    const int env_threads = omp_get_max_threads();      // OMP_NUM_THREADS of the environment (combination t = 0)
     omp_set_dynamic(0);
     g_logger = new StopLogger;
     Logging::instance().set_logger_impl(g_logger);      // owned by the singleton from here on
@@ -291,6 +366,7 @@ int main()
     Logging::instance().disable_error();
     Logging::instance().disable_benchmark();
     Logging::instance().disable_debug();
+    const int OUTER = 3;
     while (std::getline(std::cin, line))
     {
         std::istringstream is(line);
@@ -302,12 +378,13 @@ int main()
             std::string tok;
             while (is >> tok)
             {
-                Combo c{1, 1, 0};
-                if (sscanf(tok.c_str(), "%d:%d:%d", &c.t, &c.k, &c.c) == 3 && c.t >= 1 && c.t <= 64 && c.k >= 1 &&
-                    c.k <= 3 && c.c >= 0)
+                Combo c{1, 1, 0, 0};
+                int nf = sscanf(tok.c_str(), "%d:%d:%d:%d", &c.t, &c.k, &c.c, &c.m);
+                if (nf == 3) c.m = 0;
+                if (nf >= 3 && c.t >= 0 && c.t <= 64 && c.k >= 1 && c.k <= 3 && c.c >= 0 && c.m >= 0 && c.m <= 3)
                     combos.push_back(c);
             }
-            if (combos.empty()) combos.push_back({1, 1, 0});
+            if (combos.empty()) combos.push_back({1, 1, 0, 0});
             continue;
         }
         if (cmd != "CASE") continue;
@@ -327,22 +404,72 @@ int main()
             printf("BAD %ld\nE %ld\n", id, id);
             continue;
         }
-        Data D;
-        D.N = N;
-        D.dim = dim;
-        D.x.resize((size_t)N * dim);
-        uint64_t s = seed * 2654435761ULL + 12345;
-        for (auto& v : D.x)
-            v = intdata ? (double)((int)(lcg(s) % 41) - 20) : ((double)(lcg(s) % 2000001) - 1e6) / 7e4;
-        std::vector<double> ref;
+        // data set 0 is the case's; 1 and 2 are the ones the other outer threads work on in the nested contexts
+        Data Dq[OUTER];
+        for (int q = 0; q < OUTER; q++) make_data(Dq[q], N, dim, seed + (unsigned long long)q * 7919ULL, intdata);
+        const Data& D = Dq[0];
+        std::vector<double> refq[OUTER];
+        bool have_refq = false;
         for (size_t ci = 0; ci < combos.size(); ci++)
         {
             const Combo& c = combos[ci];
-            omp_set_num_threads(c.t);
+            const bool nested = (c.m == 1 || c.m == 2);
+            omp_set_num_threads(c.t == 0 ? env_threads : c.t);
             omp_set_schedule(c.k == 1 ? omp_sched_static : c.k == 2 ? omp_sched_dynamic : omp_sched_guided, c.c);
+            omp_set_dynamic(0);
+            omp_set_max_active_levels(1);
+            if (nested && !have_refq)
+            {
+                // single-threaded plain references of the other two data sets
+                omp_set_num_threads(1);
+                for (int q = 1; q < OUTER; q++) refq[q] = run_region(region, Dq[q], k, d, L, seed);
+                omp_set_num_threads(c.t == 0 ? env_threads : c.t);
+                have_refq = true;
+            }
+            omp_set_dynamic(c.m == 3 ? 1 : 0);
+            omp_set_max_active_levels(c.m == 2 ? 2 : 1);
             g_owner.assign(N, -1);
-            g_track = (region == "mds" || region == "mdsl" || region == "diff" || region == "tri" || region == "cli");
-            std::vector<double> r = run_region(region, D, k, d, L, seed);
+            g_track = !nested && (region == "mds" || region == "mdsl" || region == "diff" || region == "tri" || region == "cli");
+            std::vector<double> rs[OUTER];
+            int threw = 0;
+            int team = 0;
+            if (!nested)
+            {
+                // team size the runtime grants in this context (reported only)
+#pragma omp parallel
+                {
+#pragma omp master
+                    team = omp_get_num_threads();
+                }
+                rs[0] = run_region(region, D, k, d, L, seed);
+            }
+            else
+            {
+#pragma omp parallel num_threads(OUTER) shared(rs, threw, team)
+                {
+                    const int me = omp_get_thread_num(), outer_team = omp_get_num_threads();
+                    int inner = 0;
+#pragma omp parallel
+                    {
+#pragma omp master
+                        inner = omp_get_num_threads();
+                    }
+                    // a thread limit may leave fewer than OUTER outer threads: deal the data sets out
+                    for (int q = me; q < OUTER; q += outer_team)
+                    {
+                        int th = 0;
+                        std::vector<double> r = run_guarded(region, Dq[q], k, d, L, seed, th);
+                        rs[q].swap(r);
+                        if (th)
+                        {
+#pragma omp atomic write
+                            threw = 1;
+                        }
+                    }
+#pragma omp critical(c15_team)
+                    if (inner > team) team = inner;
+                }
+            }
             g_track = false;
             uint64_t ah = 1469598103934665603ULL;
             for (int v : g_owner)
@@ -352,42 +479,45 @@ int main()
             }
             if (ci == 0)
             {
-                ref = r;
+                refq[0] = rs[0];
                 // small symmetric-fill results are printed in full: the check compares them with the closed form
                 // f(min(a,b), max(a,b)) of theorem c15_sym_fill_all_schedules
-                if ((region == "mds" || region == "mdsl" || region == "cli") && r.size() <= 1100)
+                if ((region == "mds" || region == "mdsl" || region == "cli") && rs[0].size() <= 1100)
                 {
-                    printf("V %ld %zu", id, r.size());
-                    for (double v : r) printf(" %a", v);
+                    printf("V %ld %zu", id, rs[0].size());
+                    for (double v : rs[0]) printf(" %a", v);
                     printf("\n");
                 }
             }
-            double maxd = 0, maxr = 0;
-            long nonfinite = 0;
-            std::vector<size_t> bad;
-            if (r.size() != ref.size())
-                maxd = std::numeric_limits<double>::infinity();
+            Cmp cm;
+            uint64_t h;
+            size_t entries;
+            if (!nested)
+            {
+                compare(rs[0], refq[0], 0, cm);
+                h = fnv(rs[0].data(), rs[0].size());
+                entries = rs[0].size();
+            }
             else
-                for (size_t i = 0; i < r.size(); i++)
+            {
+                size_t off = 0;
+                entries = 0;
+                std::vector<double> all;
+                bool sizes_ok = true;
+                for (int q = 0; q < OUTER; q++)
                 {
-                    if (!std::isfinite(r[i]) || !std::isfinite(ref[i]))
-                    {
-                        nonfinite++;
-                        if (memcmp(&r[i], &ref[i], sizeof(double)) != 0 && !(std::isnan(r[i]) && std::isnan(ref[i])))
-                        {
-                            maxd = std::numeric_limits<double>::infinity();
-                            if (bad.size() < 3) bad.push_back(i);
-                        }
-                        continue;
-                    }
-                    double df = std::fabs(r[i] - ref[i]);
-                    if (df > maxd) maxd = df;
-                    if (std::fabs(ref[i]) > maxr) maxr = std::fabs(ref[i]);
-                    if (df != 0 && bad.size() < 3) bad.push_back(i);
+                    compare(rs[q], refq[q], off, cm);
+                    off += refq[q].size();
+                    if (rs[q].size() != refq[q].size()) sizes_ok = false;
+                    all.insert(all.end(), rs[q].begin(), rs[q].end());
                 }
-            printf("R %ld %d %d %d %016llx %zu %a %a %ld %016llx\n", id, c.t, c.k, c.c,
-                   (unsigned long long)fnv(r.data(), r.size()), r.size(), maxd, maxr, nonfinite, (unsigned long long)ah);
-            for (size_t b : bad) printf("X %ld %d %d %d %zu %a %a\n", id, c.t, c.k, c.c, b, ref[b], r[b]);
+                if (threw) cm.maxd = std::numeric_limits<double>::infinity(), cm.identical = false;
+                entries = sizes_ok ? rs[0].size() : all.size() + 1;
+                h = cm.identical ? fnv(rs[0].data(), rs[0].size()) : (fnv(all.data(), all.size()) ^ 0x5bd1e995ULL);
+            }
+            printf("R %ld %d %d %d %016llx %zu %a %a %ld %016llx %d %d\n", id, c.t, c.k, c.c, (unsigned long long)h, entries,
+                   cm.maxd, cm.maxr, cm.nonfinite, (unsigned long long)ah, c.m, team);
+            for (auto& b : cm.bad) printf("X %ld %d %d %d %zu %a %a\n", id, c.t, c.k, c.c, b.first, b.second.first, b.second.second);
         }
         printf("E %ld\n", id);
         fflush(stdout);
